@@ -177,11 +177,6 @@ theorem startup_ok_create (Start : FS → Prop)
   · exact (hdep _ _ e).mpr hold
   · exact (hdep _ _ e).mpr hnew
 
--- a probe that creates the file first is NOT safe for a file that does not exist yet
-example : safeSeq (.touch .target :: [.trunc .tmp, .append .tmp, .rename .tmp .target]) = false := by decide
-example : (crashState exF (tmpName exF exH) [7] (fun _ => none)
-    (.touch .target :: [.trunc .tmp, .append .tmp, .rename .tmp .target]) 1 0) exF = some [] := by decide
-
 /-! ### non-vacuity: a concrete directory, a concrete save, a concrete crash -/
 
 def exF : Path := "a.wlt".toList
@@ -215,5 +210,13 @@ example : (crashState exF (tmpName exF exH) [7] exFS (.trunc .target :: [.trunc 
 example : exFS exF ≠ none := by decide
 example : let fs' := crashState exF (tmpName exF exH) [7, 7, 7, 7] exFS inPlaceOps 3 0
     fs' exF = some [] ∧ fs' exF ≠ exFS exF ∧ fs' exF ≠ some [7, 7, 7, 7] := by decide
+
+def emptyFS : FS := fun _ => none
+
+-- a probe that creates the file first is NOT safe for a file that does not exist yet
+example : safeSeq (.touch .target :: [.trunc .tmp, .append .tmp, .rename .tmp .target]) = false := by decide
+example : (crashState exF (tmpName exF exH) [7] emptyFS
+    (.touch .target :: [.trunc .tmp, .append .tmp, .rename .tmp .target]) 1 0) exF = some [] := by decide
+
 
 end Sky.Props.C20
